@@ -522,8 +522,8 @@ def minimise(binary, plan, prop, sig, budget_runs=1500, budget_s=120):
                     ex[k] = cur[k]
             cur = ex
             # ddmin over each op's switch list
-            for i, o in enumerate(cur["plan"]):
-                sch = o.get("sim", {}).get("schedule")
+            for i, skey in [(i, k) for i in range(len(cur["plan"])) for k in ("schedule", "schedule2")]:
+                sch = cur["plan"][i].get("sim", {}).get(skey)
                 if not sch:
                     continue
                 chunk = max(1, len(sch) // 2)
@@ -533,7 +533,7 @@ def minimise(binary, plan, prop, sig, budget_runs=1500, budget_s=120):
                     while j < len(sch):
                         cand = copy.deepcopy(cur)
                         cs = sch[:j] + sch[j + chunk:]
-                        cand["plan"][i]["sim"]["schedule"] = cs
+                        cand["plan"][i]["sim"][skey] = cs
                         runs += 1
                         if has_finding(run_replay(binary, cand), cand, prop, sig, binary):
                             sch = cs
